@@ -421,6 +421,15 @@ class NumpyProxy:
         return self._alloc("ones_like", a, dtype, True, 1.0, kw)
 
     # ---- arange with symbolic bounds: ceil((stop - start) / step) nodes start + k*step (exact reals)
+    def linspace(self, start, stop, num=50, *args, dtype=None, **kw):
+        "exact-real semantics: a floating dtype requested for symbolic end points is not modelled (object array)"
+        if any(isinstance(v, SymNum) for v in (start, stop)) and dtype is not None:
+            if _np.dtype(dtype).kind != "f":
+                raise E.HarnessError("linspace of symbolic end points with dtype %r is not modelled" % (dtype,))
+            self._ov("linspace")
+            return _np.linspace(start, stop, num, *args, **kw)
+        return _np.linspace(start, stop, num, *args, **({} if dtype is None else {"dtype": dtype}), **kw)
+
     def arange(self, *args, **kw):
         if not any(isinstance(a, SymNum) for a in args):
             return _np.arange(*args, **kw)
